@@ -173,7 +173,7 @@ def oracle(img):
         out.append(("crash:not-atomic/%s" % img["name"], "after a crash at %s the database shows neither the acknowledged prefix nor prefix + statement: %s" % (where, img["dump"])))
     for sql, cls, msg in img["followups"]:
         if cls != "ok":
-            if sql.startswith("delete") and "AlreadyExists" in msg:
+            if sql.startswith("delete") and "AlreadyExists" in msg and img.get("orphan_dv"):
                 out.append(("crash:orphan-dv-path-reuse", "after recovery from a crash at %s, `%s` fails with AlreadyExists: the delete-vector file left by the interrupted DELETE is never vacuumed and its id is issued again" % (where, sql)))
             else:
                 out.append(("crash:post-recovery-rejects/%s" % sql.split()[0], "after recovery from a crash at %s, `%s` fails: %s" % (where, sql, msg[:100])))
@@ -215,7 +215,7 @@ def run(ck):
         return ck.finish(level="proof")
 
     gen = os.path.join(ck.work, "workloads.txt")
-    vlib.sh([vlib.harness_bin("c04"), "gen", str(5 if quick else 40), gen])
+    vlib.sh([vlib.harness_bin("c04"), "gen", str(5 if quick else 12), gen])
     batches = []
     if os.path.exists(CORPUS):
         batches.append(run_workloads(ck, CORPUS, "corpus", not quick))
